@@ -35,10 +35,10 @@ type MemberDynRun struct {
 }
 
 type dynInst struct {
-	bus  EventBus.Bus
-	api  api.API
-	vd   stream.VBucketDiscovery
-	port int
+	bus     EventBus.Bus
+	api     api.API
+	vd      stream.VBucketDiscovery
+	port    int
 	told    bool // a numbering was requested
 	getting bool // a Get call was started (it may still be blocked)
 }
